@@ -803,3 +803,6 @@ impl Default for AtomicReloadId {
 fn wrong_handle_type() -> ! {
     panic!("wrong handle type");
 }
+
+#[cfg(kani)]
+include!(concat!(env!("ASSETS_MANAGER_VERIF"), "/incrate/entry.rs"));
